@@ -135,6 +135,12 @@ def _fix_indirect(root, functions):
                         n["externC"] = True
 
 
+def _splice(parent, stmt, block):
+    """the statements of an inlined block take the place of the call statement in the enclosing block"""
+    i = [j for j, x in enumerate(parent["c"]) if x is stmt][0]
+    parent["c"][i:i + 1] = block["c"]
+
+
 def _replace(node, new):
     node.clear()
     node.update(new)
@@ -273,7 +279,7 @@ class Inliner:
                     continue
                 new = {"k": "CompoundStmt", "l": n.get("l"), "c": _subst(flat, env), "inl": g["name"]}
                 _fix_indirect(new, self.functions)
-                _replace(top, new)
+                _splice(p, top, new)
                 self.count += 1
                 self.sites.append((f["name"], new.get("l"), "stmt " + g["name"]))
                 g.setdefault("inlined_into", []).append(f["name"])
@@ -372,7 +378,7 @@ class Inliner:
                                    if False):
                 continue
             new = {"k": "CompoundStmt", "l": n.get("l"), "c": _subst(flat, env), "inl": g["name"]}
-            _replace(top, new)
+            _splice(p, top, new)
             self.count += 1
             self.sites.append((f["name"], new.get("l"), "stmt"))
             g.setdefault("inlined_into", []).append(f["name"])
